@@ -21,6 +21,15 @@ CLS_SAME_NAME = "same-bare-type-name-in-two-packages"
 CLS_ENUM30 = "openapi-3.0-non-string-enum-values-emitted-as-strings"
 CLS_RFC = "rfc7807-component-without-a-plain-error-route"
 CLS_ONEOF30 = "openapi-3.0-oneof-or-enum-tag-through-ref-rewrites-shared-component"
+CLS_YAML31 = "openapi-3.1-string-enum-values-retyped-by-yaml"
+
+YAML_WORDS = {"true", "false", "yes", "no", "on", "off", "y", "n", "null", "nan", "inf"}
+
+
+def yaml_plain_safe(v):
+    """Text that YAML resolves to a string when it is written as an untagged plain scalar."""
+    import re
+    return bool(re.match(r"^[A-Za-z][A-Za-z0-9 _-]*$", v)) and v.lower() not in YAML_WORDS
 
 
 def known_by_class(prop=PROP):
@@ -110,6 +119,19 @@ def neutralise(spec, version, u):
                 if new != sch["enum"]:
                     sch["enum"] = new
                     applied.add(CLS_ENUM30)
+    if version == "3.1.0":
+        reach = T.py_reach(u)
+        for d in u["decls"]:
+            if d["kind"] != "enum" or d["base"] != "string" or (d["pkg"], d["name"]) not in reach:
+                continue
+            declared = [c[2] for c in d["consts"]]
+            sch = schemas.get(d["name"])
+            if all(yaml_plain_safe(x) for x in declared) or not isinstance(sch, dict):
+                continue
+            if sch.get("type") == "string" and isinstance(sch.get("enum"), list) \
+                    and len(sch["enum"]) == len(declared) and sch["enum"] != sorted(declared):
+                sch["enum"] = sorted(declared)
+                applied.add(CLS_YAML31)
     if "Rfc7807Error" in schemas and not returns_plain_error(u):
         del schemas["Rfc7807Error"]
         applied.add(CLS_RFC)
@@ -413,15 +435,22 @@ def main():
         k, v, _, _ = meta[i]
         small = T.shrink_universe(universes[k], still_fails(v)) if not a.replay else universes[k]
         o = observe(small, v)
+        e2 = S.evaluate(PROP, [(v, small, neutralise(o["spec"], v, small)[0])], "shrink")
+        after = ("unprojectable: " + e2["unprojectable"][0]) if e2["unprojectable"] else \
+            "prop_C07 sub-claims %s fail" % e2["c07_fail"].get(0, [])
         res.violation({"kind": "property-fails-on-implementation", "openapi": v, "input": small,
                        "implementation_components": components_of(o["spec"]), "cli_exit": o["exit"],
-                       "cli_output": o["out"][-1200:], "why": why,
+                       "cli_output": o["out"][-1200:], "why": why, "after_shrinking": after,
+                       "subclaims": "1 a reachable declaration has no / a wrong / several schemas, 2 two reachable "
+                                    "declarations share a name, 3 a schema without declaration, 4 Rfc7807Error missing",
                        "claim": "prop_C07 (one schema per reachable declaration matching the declaration, no others "
                                 "apart from Rfc7807Error when a route returns a plain error) is false on the emitted document"})
 
     # ---- correspondence model = implementation (components projection)
     unexplained_ids = set(i for i, _ in unexplained)
-    disagree = [i for i in ev["disagree_comps"] if meta[i][2] == "raw" and not has_same_named(universes[meta[i][0]])]
+    retyped = set((m[0], m[1]) for m in meta if m[2] == "neutral" and CLS_YAML31 in m[3])
+    disagree = [i for i in ev["disagree_comps"] if meta[i][2] == "raw" and not has_same_named(universes[meta[i][0]])
+                and (meta[i][0], meta[i][1]) not in retyped]
     if disagree and not res.violations:
         # the model no longer describes the code: look harder for an input that fails the oracle
         extra = []
@@ -522,6 +551,9 @@ def main():
             "metamorphic_pairs": pair_stats}),
     })
     res.assumptions += [
+        "3.1.0: the values of a string enum are assumed to be text that YAML resolves to a string (letters, digits, "
+        "blank, dash, underscore, not a YAML keyword); other values are the known-finding class " + CLS_YAML31 +
+        " and are excluded from the correspondence",
         "go/packages loading, go/types constant discovery (types.Identical) and the kin-openapi / libopenapi "
         "renderers and validators are exercised, not modelled; the library rules the generator can trigger are a "
         "modelled fragment (Schema.lib_model_ok_v)",
